@@ -23,7 +23,7 @@ def _harness_args(a, trace, only=None):
     if a.get("specreplay"):
         return ["specreplay", "-in", a["behs"], "-out", trace]
     if a.get("liveness"):
-        return ["liveness", "-out", trace, "-seed", a["seed"], "-runs", a["runs"], "-prefix", a["prefix"], "-nmax", a["nmax"]] + (
+        return ["liveness", "-out", trace, "-seed", a["seed"], "-runs", a["runs"], "-prefix", a["prefix"], "-nmax", a["nmax"], "-cuts", a.get("cuts", 0)] + (
             ["-only", only] if only is not None else [])
     out = ["cluster", "-out", trace, "-seed", a["seed"], "-runs", a["runs"], "-steps", a["steps"], "-heights", a["heights"],
            "-nmin", a["nmin"], "-nmax", a["nmax"]]
